@@ -135,6 +135,7 @@ STRENGTHENED = {
     "C19-w7m2": "missed at first; rule table 4 = an EMPTY edge_whitelist whose dict the caller fills in afterwards",
     "C20-w7m1": "missed at first; counts 4300 / 4600 with the default connectivity judged directly",
     "C10-w7m2": "missed at first; `dump` and `dumps` are also compared when given dill's options (`recurse`, `byref`)",
+    "C03-w7m2": "missed at first; probe: links filed as members of universes, then unlink (with and without destroy), an end assignment, unlink_from — membership must not move",
 }
 _EQ = ("needs graph objects (vertices / law sets) that override `__eq__`/`__hash__` so that distinct objects compare equal; the unchanged "
        "code itself uses == membership throughout, so the identity reading of the properties presupposes default equality (§6, §11.1)")
@@ -143,7 +144,6 @@ _FX = ("needs a filter callback that MUTATES the graph while it is being consult
 _OV = ("needs a user subclass that OVERRIDES a structural method of the library (`add_to_link`, `add_vertex`, `vertices`) so that it refuses "
        "or raises, or an ill-typed argument: the model and the statements assume the library's own methods and well-typed arguments (§6)")
 MISSED_NOTE = {
-    "C03-w7m2": "known gap: needs a LINK filed as a member of a universe (`uni.add_vertex(link)`); universes of the pool hold vertices only",
     "C04-w7m2": "known gap: needs a user link class deriving from an UNKNOWN two-ended class and from DirectedEdge, met after an instance of that unknown class (the find_links twin C09-w7m2 is caught)",
     "C08-w7m1": "out of reach: needs a DFS path within 64 frames of the interpreter's recursion limit (936 deep), where the unchanged code itself is about to raise RecursionError under the harness's own frames",
     "C13-w7m2": "known gap: needs a nested universe whose `laws` nobody has read yet (the adapter registers every universe's law set when it is created)",
